@@ -26,18 +26,20 @@ def run(tier, seed):
             for tr in (True, False):
                 cases.append(Case('stateful_n%d_t%d_b%d_%d' % (n, t, bad, tr), 'crypto', 'zzC06_stateful', [n, t, full, bad, tr]))
         cases.append(Case('stateful_n%d_t%d_few' % (n, t), 'crypto', 'zzC06_stateful', [n, t, (1 << t) - 1, 0, True]))
+    FC = {'formal_coeffs': True}
     # Lagrange limb batching: 9 and 17 signers cross the 8-indices-per-limb boundaries
-    cases.append(Case('stateless_9signers', 'crypto', 'zzC06_stateless', [10, 8, (1 << 9) - 1, 0]))
+    cases.append(Case('stateless_9signers', 'crypto', 'zzC06_stateless', [10, 8, (1 << 9) - 1, 0], opts=FC))
     if thorough:
-        cases.append(Case('stateless_17signers', 'crypto', 'zzC06_stateless', [18, 16, (1 << 17) - 1, 3]))
-        cases.append(Case('stateless_9signers_high', 'crypto', 'zzC06_stateless', [12, 8, 0b111111111000, 2]))
+        cases.append(Case('stateless_17signers', 'crypto', 'zzC06_stateless', [18, 16, (1 << 17) - 1, 3], opts=FC))
+        cases.append(Case('stateless_9signers_high', 'crypto', 'zzC06_stateless', [12, 8, 0b111111111000, 2], opts=FC))
+        cases.append(Case('stateless_9signers_symbolic_coeffs', 'crypto', 'zzC06_stateless', [10, 8, (1 << 9) - 1, 0]))
     cases.sort(key=lambda c: -(c.args[0] if c.args else 0))
-    return run_check('C06', cases, tier, seed, setup=SETUP, timeout_ms=600000,
+    return run_check('C06', cases, tier, seed, setup=SETUP, timeout_ms=600000 if thorough else 120000,
         functions=['BLSThresholdKeyGen', 'generateFrPolynomial', 'BLSReconstructThresholdSignature', 'blsThresholdSignatureInspector methods', 'EnoughShares',
                    'C:Fr_polynomial_image', 'C:E1_lagrange_interpolate_at_zero_write', 'C:E1_lagrange_interpolate_at_zero', 'C:Fr_lagrange_coeff_at_zero', 'C:E1_multi_scalar', 'C:G2_mult_gen'],
         bounds={'configurations': str(cfgs) + ' plus 9 (and 17, thorough) signers for the limb batching of the Lagrange coefficients',
                 'signer sets': 'every subset of size t, t+1, t+2 (t+2 only for n <= 3 in the quick tier), two rotations; pairs of sets for byte equality',
-                'polynomial': 'coefficients are symbolic field elements (a_0, a_t non-zero); zero key shares (probability 1/r) are excluded by an assumption',
+                'polynomial': 'coefficients are symbolic field elements (a_0, a_t non-zero); zero key shares (probability 1/r) are excluded by an assumption; for the 9- and 17-signer cases the coefficients are formal indeterminates (generic values)',
                 'outside': 'n up to 254 in general; the derivation of the coefficients from the seed (SHA3, ChaCha20, map_bytes_to_Fr); BLST pippenger and modular inverse (contracts)'},
         assumptions=ASSUME + ['no key share and not the group key is zero (1/r events)'], trusted=galg.TRUSTED + stubs_hash.TRUSTED,
         explanation='symbolic execution of key generation (Horner in F_r from LLVM IR), share signing, and Lagrange interpolation at 0 (real limb-batched coefficient code on concrete signer indices, multi-scalar multiplication contract) with exact polynomials: the reconstructed discrete log normalises to a_0*h for every signer set')
